@@ -147,11 +147,14 @@ theorem C10_class_name_parts (p t : Name) :
   ⟨afterLast_append cSlash p t, afterLast_no_sep cSlash t, beforeFirst_append cDollar p t,
    beforeFirst_no_sep cDollar t⟩
 
-/-- `is_jacoco` looks at the first 256 bytes only and rejects shorter files. -/
-theorem C10_is_jacoco_first_256_bytes (file : List Nat) :
-    (file.length < 256 → isJacoco file = false) ∧
-    (256 ≤ file.length → isJacoco file = isJacoco (file.take 256)) :=
-  ⟨isJacoco_short file, isJacoco_take file⟩
+/-- `is_jacoco` (since 82d1c8b): a file is taken for a JaCoCo report iff the DTD marker (dash,
+two slashes, JACOCO, two slashes, DTD) occurs as a contiguous byte string within its first
+min(256, length) bytes – a shorter file is read whole, nothing else is required (no UTF-8 check) –
+and only the first 256 bytes matter. -/
+theorem C10_is_jacoco_marker_in_first_256_bytes (file : List Nat) :
+    (isJacoco file = true ↔ ∃ pre post, file.take 256 = pre ++ jacocoMarker ++ post) ∧
+    isJacoco file = isJacoco (file.take 256) :=
+  ⟨isJacoco_iff file, isJacoco_take file⟩
 
 /-! ### non-vacuity -/
 
@@ -179,6 +182,10 @@ example :
     ∧ parse [.start sPackage [(sName, [112])], .start sSourcefile [(sName, [115])],
         .empty sLine [(sCi, [49]), (sCb, [48]), (sMb, [48])]] 9 = .err .invalidRecord
     ∧ parse [.start sPackage [([97], [49]), ([97], [50]), (sName, [112])]] 3 = .err .parse := by
+  decide +kernel
+
+/-- `is_jacoco` on short inputs: the bare marker is accepted, the marker minus its last byte is not -/
+example : isJacoco jacocoMarker = true ∧ isJacoco (jacocoMarker.take 13) = false := by
   decide +kernel
 
 end Grcov.Props.C10
